@@ -166,11 +166,23 @@ ElemElement::startElement(StylesheetExecutionContext&       executionContext) co
 
         const XalanDOMString::size_type     indexOfNSSep = indexOf(elemName, XalanUnicode::charColon);
 
-        const bool  havePrefix = indexOfNSSep == len ? false : true;
+        bool    havePrefix = indexOfNSSep == len ? false : true;
 
         const GetCachedString   prefixGuard(executionContext);
 
         XalanDOMString&     prefix = prefixGuard.get();
+
+        if (havePrefix == true &&
+            m_namespaceAVT != 0 &&
+            namespaceLen == 0)
+        {
+            // An empty namespace attribute asks for an element that is
+            // in no namespace.  Such an element can't have a prefix,
+            // so the element gets the local part of the name.
+            elemName.erase(0, indexOfNSSep + 1);
+
+            havePrefix = false;
+        }
 
         if (havePrefix == true)
         {
@@ -394,11 +406,23 @@ ElemElement::execute(StylesheetExecutionContext&        executionContext) const
 
         const XalanDOMString::size_type     indexOfNSSep = indexOf(elemName, XalanUnicode::charColon);
 
-        const bool  havePrefix = indexOfNSSep == len ? false : true;
+        bool    havePrefix = indexOfNSSep == len ? false : true;
 
         const GetCachedString   prefixGuard(executionContext);
 
         XalanDOMString&     prefix = prefixGuard.get();
+
+        if (havePrefix == true &&
+            m_namespaceAVT != 0 &&
+            namespaceLen == 0)
+        {
+            // An empty namespace attribute asks for an element that is
+            // in no namespace.  Such an element can't have a prefix,
+            // so the element gets the local part of the name.
+            elemName.erase(0, indexOfNSSep + 1);
+
+            havePrefix = false;
+        }
 
         if (havePrefix == true)
         {
